@@ -3222,7 +3222,14 @@ define_array_type(InterrogateType &itype, CPPArrayType *cpptype) {
     // This indicates an unsized array.
     itype._array_size = -1;
   } else {
-    itype._array_size = cpptype->_bounds->evaluate().as_integer();
+    CPPExpression::Result result = cpptype->_bounds->evaluate();
+    if (result._type == CPPExpression::RT_error) {
+      // We can't determine the size at this time; report it as unknown rather
+      // than aborting (or recording a bogus number).
+      itype._array_size = -1;
+    } else {
+      itype._array_size = result.as_integer();
+    }
   }
 }
 
